@@ -23,6 +23,7 @@ def dispatch (line : String) : String :=
   | "lex" :: args => Lex.handle args
   | "chk" :: args => Gr.handleChk false args
   | "chkset" :: args => Gr.handleChk true args
+  | "chkthis" :: args => Gr.handleChkThis args
   | "srt" :: args => Srt.handle args
   | "dec" :: args => Enc.handle "dec" args
   | "load" :: args => Enc.handle "load" args
